@@ -3,6 +3,7 @@ Line protocol for the Level-B store model.  One request line in, one response li
 The harness (harness/store.py) runs the real `Container` on the same operations and compares.
 -/
 import Dos.Store
+import Dos.IO
 import Dos.Wire
 
 namespace Dos.StoreDriver
@@ -156,6 +157,82 @@ def stepLine (d : DState) (line : String) : DState × String :=
     match getCont d name, natList ks with
     | some c, some ks => (d, showViews c.tab c.st ks)
     | _, _ => (d, "bad-op")
+  | _ => (d, "bad-op")
+
+end Dos.StoreDriver
+
+/-! ### Level C: action lists, crash / power-loss / fault images of the current model state -/
+namespace Dos.StoreDriver
+open Dos Dos.Wire Dos.IO
+
+def showAct : Act → String
+  | .sbCreate => "sbCreate" | .sbWrite _ => "sbWrite" | .sbFlush => "sbFlush" | .sbFsync => "sbFsync"
+  | .sbClose => "sbClose" | .sbRemove => "sbRemove" | .dirSync => "dirSync"
+  | .mkdirLoose _ => "mkdirLoose" | .renameLoose k => s!"renameLoose:{k}" | .readLoose k => s!"readLoose:{k}"
+  | .looseUnlink k => s!"looseUnlink:{k}"
+  | .lock p => s!"lock:{p}" | .unlock p => s!"unlock:{p}" | .pkOpen p => s!"pkOpen:{p}"
+  | .pkWrite p _ => s!"pkWrite:{p}" | .pkFlush p => s!"pkFlush:{p}" | .pkFsync p => s!"pkFsync:{p}"
+  | .pkClose p => s!"pkClose:{p}" | .pkTruncate p n => s!"pkTruncate:{p}:{n}" | .pkRead p => s!"pkRead:{p}"
+  | .pkUnlink p => s!"pkUnlink:{p}" | .pkLink a b => s!"pkLink:{a}:{b}"
+  | .sqlInsert r => s!"sqlInsert:{r.key}" | .sqlDelete k => s!"sqlDelete:{k}" | .sqlMove r => s!"sqlMove:{r.key}"
+  | .sqlRepoint a b => s!"sqlRepoint:{a}:{b}" | .sqlCommit => "sqlCommit"
+
+/-- the action list of an operation from the current state; `none` = unknown request -/
+def compileOp (t : Tab) (s : St) (args : List String) : Option (List Act) :=
+  match args with
+  | ["addLoose", c, mk] => do pure (actsAddLoose s (← c.toNat?) (mk == "1"))
+  | ["addPacked", comp, nh, rt, cs] => do pure (actsAddPacked t s (← natList cs) (comp == "1") (nh == "1") (rt == "1"))
+  | ["packAll", cl, order, zs] => do pure (actsPackAll t s (← natList order) (← boolList zs) (cl == "1"))
+  | ["clean", order] => do pure (actsClean s (← natList order))
+  | ["delete", ks] => do pure (actsDelete s (← natList ks))
+  | ["repackOne", p, zs] => do pure (actsRepackPack t s (← p.toNat?) (← boolList zs))
+  | _ => none
+
+def lengthsOf (t : Tab) (acts : List Act) : String :=
+  -- stored length of every pkWrite, so that the harness can align partial writes with whole segments
+  showNats (acts.filterMap (fun a => match a with | .pkWrite _ g => some (g.len t) | _ => none))
+
+def levelC (d : DState) (toks : List String) : DState × String :=
+  match toks with
+  | "acts" :: name :: args =>
+    match getCont d name with
+    | none => (d, "bad-op no-such-container")
+    | some c =>
+      match compileOp c.tab c.st args with
+      | some acts => (d, (if acts.isEmpty then "-" else " ".intercalate (acts.map showAct)) ++ " | " ++ lengthsOf c.tab acts)
+      | none => (d, "bad-op")
+  -- state the disk is left in when the process is killed after `k` actions (`cut` extra segments of every open pack
+  -- had already left the user-space buffer), after a power loss at that point, or when action `k` fails
+  | "image" :: kind :: name :: k :: cut :: args =>
+    match getCont d name, k.toNat?, cut.toNat? with
+    | some c, some k, some cut =>
+      match compileOp c.tab c.st args with
+      | some acts =>
+        let x := execAll (ofSt c.st) (acts.take k)
+        let img : St := match kind with
+          | "crash" => crashImg x (fun _ => cut)
+          | "power" => powerImg x
+          | "fault" => toSt (runFault (ofSt c.st) acts k)
+          | _ => toSt (execAll (ofSt c.st) acts)
+        (d, showState img ++ s!" locks={showNats (match kind with | "fault" => (runFault (ofSt c.st) acts k).locks | _ => x.locks)}")
+      | none => (d, "bad-op")
+    | _, _, _ => (d, "bad-op")
+  -- is every prefix safe?  keep = keys that must survive, univ = keys to test; answers the list of unsafe prefixes
+  | "safety" :: kind :: name :: keep :: univ :: args =>
+    match getCont d name, natList keep, natList univ with
+    | some c, some keep, some univ =>
+      match compileOp c.tab c.st args with
+      | some acts =>
+        let ks := List.range (acts.length + 1)
+        let bad := ks.filter (fun k =>
+          let x := execAll (ofSt c.st) (acts.take k)
+          match kind with
+          | "crash" => !(safeImgB c.tab (crashImg x (fun _ => 0)) keep univ && safeImgB c.tab (crashImg x (fun _ => 1000000)) keep univ)
+          | "power" => !safeImgB c.tab (powerImg x) keep univ
+          | _ => !safeImgB c.tab (toSt (runFault (ofSt c.st) acts k)) keep univ)
+        (d, s!"n={acts.length} unsafe={showNats bad}")
+      | none => (d, "bad-op")
+    | _, _, _ => (d, "bad-op")
   | _ => (d, "bad-op")
 
 end Dos.StoreDriver
